@@ -6,51 +6,6 @@ P = "dict_wf(value) and dict_wf(self.params) and "
 ECALL = "statham.schema.elements.base:Element.__call__"
 STRLIST = "is_list({x}) and forall(lambda j: is_str({x}[j]), len({x}))"
 
-contract(M + "Required._validate",
-         requires=P + "has(self.params,'required') and " + STRLIST.format(x="self.params['required']"),
-         raises=[("ValidationError", "not all_present(self.params['required'], value)")],
-         kinds={"value": "dict", "self.params['required']": "list"}, props=["C01", "C10", "C08"])
-contract(M + "MinProperties._validate",
-         requires=P + "has(self.params,'minProperties') and is_num(self.params['minProperties'])",
-         raises=[("ValidationError", "len(value) < num(self.params['minProperties'])")],
-         kinds={"value": "dict"}, props=["C01", "C10", "C08"])
-contract(M + "MaxProperties._validate",
-         requires=P + "has(self.params,'maxProperties') and is_num(self.params['maxProperties'])",
-         raises=[("ValidationError", "len(value) > num(self.params['maxProperties'])")],
-         kinds={"value": "dict"}, props=["C01", "C10", "C08"])
-contract(M + "PropertyNames._validate",
-         requires=P + "has(self.params,'propertyNames') and is_obj(self.params['propertyNames'])",
-         raises=[("ValidationError", "exists(lambda j: not sem(self.params['propertyNames'], key_at(value, j)), len(value))")],
-         calls={"self.params['propertyNames']": ECALL},
-         invariants={1: "forall(lambda j: sem(self.params['propertyNames'], key_at(value, j)), _k)"},
-         kinds={"value": "dict"}, props=["C01", "C10", "C08"])
-contract(M + "Dependencies.validate_schema_dependency",
-         requires="is_obj(dependency) and not is_np(value)",
-         raises=[("ValidationError", "not sem(dependency, value)")],
-         calls={"dependency": ECALL}, props=["C01", "C10", "C08"])
-
-DEPS = ("has(self.params,'dependencies') and dict_wf(self.params['dependencies']) and "
-        "forall(lambda j: (is_list(val_at(self.params['dependencies'], j)) and "
-        "forall(lambda i: is_str(val_at(self.params['dependencies'], j)[i]), len(val_at(self.params['dependencies'], j))))"
-        " or is_obj(val_at(self.params['dependencies'], j)), len(self.params['dependencies']))")
-DEP_BAD = ("has(value, key_at(self.params['dependencies'], j)) and "
-           "(not all_present(val_at(self.params['dependencies'], j), value) "
-           "if is_list(val_at(self.params['dependencies'], j)) else not sem(val_at(self.params['dependencies'], j), value))")
-contract(M + "Dependencies._validate",
-         requires=P + DEPS,
-         raises=[("ValidationError", f"exists(lambda j: {DEP_BAD}, len(self.params['dependencies']))")],
-         invariants={1: f"forall(lambda j: not ({DEP_BAD}), _k)"},
-         kinds={"value": "dict", "self.params['dependencies']": "dict"},
-         props=["C01", "C10", "C08"])
-
-contract(M + "AdditionalProperties._validate",
-         requires=P + "has(self.params,'__properties__') and isinstance(self.params['__properties__'], Properties)"
-                      " and is_obj(self.params['__properties__'].additional)",
-         raises=[("ValidationError", "not truthy(self.params['__properties__'].additional) and "
-                  "exists(lambda j: not props_accepts(self.params['__properties__'], key_at(value, j)), len(value))")],
-         kinds={"value": "dict", "self.params['__properties__']": "Properties"},
-         props=["C01", "C10", "C08"])
-
 contract("statham.schema.elements.properties:Properties.__contains__",
          requires="is_str(key)", returns="result is props_accepts(self, key)",
          ghost={"function": "props_accepts(self, key)"},
